@@ -82,9 +82,21 @@ pub fn small_writes_nodelay() -> Scenario {
 pub fn fin_behind_data() -> Scenario {
     base(
         "fin-behind-data",
-        app(vec![WOp::Write(35)], vec![ROp::Drop]),
+        app(vec![WOp::Write(35), WOp::Drop], vec![ROp::Drop]),
         app(vec![], vec![ROp::ReadToEof(64)]),
     )
+}
+
+/// the close-by-drop finds the unsent bytes wrapped around the end of a small, non-growing TX ring
+pub fn wrapped_drop_close() -> Scenario {
+    let mut s = base(
+        "wrapped-drop-close",
+        app(vec![WOp::Write(30), WOp::PauseMs(100), WOp::Write(35), WOp::Drop], vec![ROp::Drop]),
+        app(vec![], vec![ROp::ReadToEof(64)]),
+    );
+    s.a.tx_init = 4 * MSS;
+    s.a.tx_max = 4 * MSS;
+    s
 }
 
 /// request / response
@@ -111,8 +123,8 @@ pub fn tiny_rx() -> Scenario {
 pub fn drop_close() -> Scenario {
     base(
         "drop-close",
-        app(vec![WOp::Write(60), WOp::WaitRead(20)], vec![ROp::ReadN(20, 64)]),
-        app(vec![WOp::Write(20), WOp::WaitRead(60)], vec![ROp::ReadToEof(64)]),
+        app(vec![WOp::Write(60), WOp::WaitRead(20), WOp::Drop], vec![ROp::ReadN(20, 64)]),
+        app(vec![WOp::Write(20), WOp::WaitRead(60), WOp::Drop], vec![ROp::ReadToEof(64)]),
     )
 }
 
